@@ -9,6 +9,7 @@ use crate::world::RunRecord;
 use rt::bb::Fault;
 use sylvia::cw_std::Coin;
 
+pub mod f1;
 pub mod f3;
 
 pub struct WorldPlan {
